@@ -1,4 +1,5 @@
 """C16 -- overlay worlds shadow the base consistently.  Spec: StaticWorld.tla (Layered), scenario 2."""
+import mworld
 import sworld
 
 META = {
@@ -8,7 +9,7 @@ META = {
             "overlapping / disjoint ID sets and differing tags and geometry, checks LayeredShadows on each, and every "
             "pair is built as ingest.NewOverlayWorld over basic worlds, compact worlds and a mix; lookup, locations, tag "
             "search (order, no duplicates) and enumeration (each ID once, upper version) must equal the specification's.",
-    "note": "Both layers are self-contained valid worlds (an upper path needs its points in the upper layer). "
+    "note": "Mutable overlays (NewMutableOverlayWorld) are exercised with the edit histories of MutableWorld scenario 1. Both layers are self-contained valid worlds (an upper path needs its points in the upper layer). "
             "The basic pairs are also built in a frame where vertex 4 (an upper-layer location of P0) is exactly latitude 0, longitude 0. "
             "Small scope: 9 IDs. Collections are left out of compact layers (the compact format does not store them). "
             "Trusted: TLC, harness/obs, vh-world.",
@@ -17,6 +18,12 @@ META = {
 
 
 def run(ctx):
+    # the mutable overlay over a base (ingest.NewMutableOverlayWorld): edit histories of MutableWorld scenario 1, after
+    # every step lookup and search of the overlay must be the specification's (an edited feature shadows its base version)
+    mworld.run_family(
+        ctx, "C16", scenarios=[1], impls=['overlay-basic', 'overlay-mutable'],
+        sections=['lookup', 'search', 'problems'], finish=False,
+        max_paths={1: 250}, focused=(40, 400))
     return sworld.run_static(
         ctx, "C16", 2,
         variants=[{"impl": "layered-basic"}, {"impl": "layered-basic", "frame": "origin", "max": (200, 1536)},
